@@ -122,6 +122,9 @@ class Series:
             vals = list(data)
         elif data is None:
             vals = []
+        elif isinstance(data, (bool, int, float, SymBool, SymInt, SymFloat)) and index is not None:
+            index = list(index)
+            vals = [data] * len(index)          # a scalar is broadcast over the given index
         else:
             raise ModelGap("Series from %r" % (type(data),))
         self._vals = [_norm_cell(v) for v in vals]
